@@ -38,7 +38,9 @@ def bodies(budget, depth=0):
             out.append([st] + rest)
     if depth < 2:
         for rb in bodies(budget - 1, depth + 1):
-            out.append([{"op": "rebuild", "cfg": {"expected": "success"}, "body": rb}])
+            # the first-level rebuild targets another architecture than the build it follows
+            cfg = {"expected": "success", "target_triple": "aarch64-unknown-linux-musl"} if depth == 0 else {"expected": "success"}
+            out.append([{"op": "rebuild", "cfg": cfg, "body": rb}])
     return out
 
 
@@ -102,7 +104,8 @@ def judge(res, scenario, fail, panic_at, base=None):
         img = builds[0]["image"]
         if any(b["image"] != img for b in builds):
             v.append(("rebuild-uses-other-image", f"pack build images {[b['image'] for b in builds]}"))
-        vols = [n for n in names_in(builds[0]) if n != img]
+        # every cache volume any pack build of this run named (a rebuild must reuse the build's pair)
+        vols = sorted({n for b in builds for n in names_in(b) if n != b["image"]})
         rmis = [j for j, r in enumerate(dec) if r["kind"] == "rmi" and img in r["names"]]
         if len(rmis) != 1:
             v.append(("image-removed-%d-times" % len(rmis), f"image {img} has {len(rmis)} removals"))
@@ -123,8 +126,10 @@ def judge(res, scenario, fail, panic_at, base=None):
                 last_build = max(i for i, d in enumerate(dec) if d["kind"] == "pack-build")
                 if rmv[0] < last_build:
                     v.append(("volume-removed-before-last-use", f"volume {vol} removed before the last pack build"))
-        if len(vols) != 2:
-            v.append(("cache-volumes", f"pack build names {len(vols)} cache volumes"))
+        for b in builds:
+            nb = [n for n in names_in(b) if n != b["image"]]
+            if len(nb) != 2:
+                v.append(("cache-volumes", f"a pack build names {len(nb)} cache volumes"))
     for d in dec:
         if d["kind"] in ("rm", "rmi", "volume-rm"):
             foreign = [n for n in d["names"] if n not in minted]
